@@ -252,7 +252,8 @@ theorem router_forward_cold (fuel : Nat) (X : St) (c : List NodeCfg) (a r b ia i
     subst this
     exact addArp_known nd' _ _ _ es hes
   have s2 : routerRecv (fuel + 12 + 1) X1 r ia f.dec = routerProcess (fuel + 12) X1 r ia f.dec := by
-    rw [C08_router_transit (fuel + 12) X1 r ia f.dec ndR ra S1.ns hi1 htr (by show ifaceWithIp ndR.ifaces f.dstIp = none; rw [hd]; exact hnotown),
+    rw [C08_router_transit (fuel + 12) X1 r ia f.dec ndR ra S1.ns hi1 htr (by show ifaceWithIp ndR.ifaces f.dstIp = none; rw [hd]; exact hnotown)
+      (by intro h; rw [hfwR] at h; cases h),
       hlearn]
   -- the nested exchange
   obtain ⟨Y, hY, SY⟩ := router_host_arp fuel X1 c b r a ib ib ndB ndR ndA ifB rb ownB S1 hab hbr har hifsB henB hpeerB hkB honB hinB hkR
